@@ -23,6 +23,29 @@ func canonField(v *types.Var) string {
 	return v.Name()
 }
 
+// shapeString renders a type with named non-struct, non-interface types expanded to what they
+// stand for (a field of type `map[string]jobQueue` with `type jobQueue []*PipelineJob` reads
+// `map[string][]*…PipelineJob`).
+func shapeString(t types.Type) string {
+	switch x := t.(type) {
+	case *types.Named:
+		switch x.Underlying().(type) {
+		case *types.Struct, *types.Interface:
+			return x.String()
+		}
+		return shapeString(x.Underlying())
+	case *types.Pointer:
+		return "*" + shapeString(x.Elem())
+	case *types.Slice:
+		return "[]" + shapeString(x.Elem())
+	case *types.Map:
+		return "map[" + shapeString(x.Key()) + "]" + shapeString(x.Elem())
+	case *types.Chan:
+		return "chan " + shapeString(x.Elem())
+	}
+	return t.String()
+}
+
 func resolveFieldAliases(w *World) {
 	fieldAlias = map[*types.Var]string{}
 	structOfNamed := func(pkgRel, name string) *types.Struct {
@@ -51,7 +74,7 @@ func resolveFieldAliases(w *World) {
 				if f.Exported() || f.Embedded() {
 					continue
 				}
-				if want[canon](f.Type().String(), f) {
+				if want[canon](shapeString(f.Type()), f) {
 					hit = f
 					n++
 				}
@@ -91,7 +114,7 @@ func resolveFieldAliases(w *World) {
 		var cands []*types.Var
 		for i := 0; i < runner.NumFields(); i++ {
 			f := runner.Field(i)
-			t := f.Type().String()
+			t := shapeString(f.Type())
 			if !f.Exported() && strings.HasPrefix(t, "map[string][]") && strings.HasSuffix(t, "PipelineJob") {
 				cands = append(cands, f)
 			}
